@@ -276,7 +276,7 @@ BASE_TRUSTED = [
 
 def run_c_property(pid, tier, seed, R, funcs, lemmas=(), concretise=None, trusted=(), technique='',
                    layout_types=('CTypeDescrObject', 'CFieldObject', 'PyObject', 'PyTypeObject', 'CDataObject'),
-                   extra=None, more=None, level='proof', explanation=None, quick_budget=60, thorough_budget=600, tu=None):
+                   extra=None, more=None, level='proof', explanation=None, quick_budget=120, thorough_budget=900, tu=None):
     rep = Report(pid, tier, seed)
     tu = tu or cfront.load_tu()
     try:
